@@ -5,11 +5,6 @@ describe the code as it is; the correspondence check is what verifies it on ever
 -/
 namespace Kio
 
-/-- the tree as shipped at the pinned commit -/
-def TimeCfg.shipped : TimeCfg := { tdExact := false, dtExact := false, dtMillis := false }
-/-- the tree after the `fix:` commits B and C -/
-def TimeCfg.repaired : TimeCfg := { tdExact := true, dtExact := true, dtMillis := true }
-
 def Env.shipped (codes : List Int) : Env :=
   { errorCodes := codes, time := .shipped, skipUnknownTags := false }
 def Env.repaired (codes : List Int) : Env :=
